@@ -131,7 +131,8 @@ def name_programs(thorough):
         if thorough or n in ("Self", "Send", "Sync", "Unknown", "Option", "Box", "Error", "Client"):
             progs.append(Program("nm_union_%s" % n, "union type named `%s`" % n, space.ir([space.union(n, [space.field("a", S), space.field("b", space.lst(space.ref(n, PKG)))], PKG)]), cls="name:union-type:" + n))
             progs.append(Program("nm_enumt_%s" % n, "enum type named `%s`" % n, space.ir([space.enum(n, ["A", "B"], PKG), space.obj("H", [space.field("e", space.ref(n, PKG))], PKG)]), cls="name:enum-type:" + n))
-            progs.append(Program("nm_svc_%s" % n, "service named `%s`" % n, space.ir([], [space.service(n, [space.endpoint("go", "GET", "/go", [])], PKG)]), cls="name:service:" + n))
+            progs.append(Program("nm_svc_%s" % n, "service named `%s`" % n, space.ir([], [space.service(n, [space.endpoint("go", "GET", "/go", []), space.endpoint("up", "POST", "/up", [space.arg("body", space.prim("BINARY"), "body")], returns=space.prim("BINARY")),
+                                                                                                                          space.endpoint("ob", "GET", "/ob", [], returns=space.opt(space.prim("BINARY")), auth="header")], PKG)]), cls="name:service:" + n))
     return progs
 
 
